@@ -55,7 +55,8 @@ Definition macro_bd (s : st) : st :=
   let s7 := match tag with [] => s6 | _ => if has_key tag (dtags s6) then s6 else err "invalid tag" s6 end in
   begin_display_block tag id s7.
 
-(* macroBf / macroEf / macroFt: only the built-in "escape" filter exists in this slice *)
+(* macroBf; macroEf and macroFt apply filters, which may start a process: they are in Ctl.v *)
+Definition has_filter (tag : str) (s : st) : bool := str_eqb tag (R "escape") || has_key tag (filters s).
 Definition macro_bf (s : st) : st :=
   if negb (process s) then s else
   let '(o, s1) := parse_opts specOptBf (args s) s in
@@ -66,7 +67,7 @@ Definition macro_bf (s : st) : st :=
   | None, None => mk true [] (err "one of -f option or -t option at least required" (s2 <| asis := true |>))
   | of, ot =>
     let '(tag, s3) := match ot with Some t => inlines_text t s2 | None => ([], s2) end in
-    let bad_tag := match ot with Some _ => negb (str_eqb tag (R "escape")) | None => false end in
+    let bad_tag := match ot with Some _ => negb (has_filter tag s3) | None => false end in
     if bad_tag then mk true tag (err "undefined filter tag" s3) else
     match of with
     | Some f =>
@@ -77,42 +78,6 @@ Definition macro_bf (s : st) : st :=
     | None => let s6 := mk false tag s3 in if par s6 then (begin_phrasing (flag "ns" o) s6) <| ws := false |> else s6
     end
   end.
-Definition macro_ef (s : st) : st :=
-  if negb (process s) then s else
-  let '(o, s1) := parse_opts specOptEf (args s) s in
-  let s2 := useless o s1 in
-  match bf s2 with
-  | None => err "no corresponding Bf" s2
-  | Some b =>
-    let s3 :=
-      if bf_ignore b then s2 <| elided := true |> else
-      let t := if str_eqb (bf_tag b) (R "escape") then escape_fn s2 (raw s2) else raw s2 in
-      let s' := w t s2 in
-      if par s' && negb (flag "ns" o) then s' <| ws := true |>
-      else if negb (flag "ns" o) then w [10] s' else s' in
-    s3 <| raw := [] |> <| asis := false |> <| bf := None |>
-  end.
-Definition macro_ft (s : st) : st :=
-  if negb (process s) then s else
-  let '(o, s1) := parse_opts specOptFt (args s) s in
-  let '(skip, s2) := match opt "f" o with
-                     | Some f => let '(fs, s') := formats_of f s1 in let s'' := check_formats fs s' in (not_export_format fs s'', s'')
-                     | None => (false, s1) end in
-  if skip then s2 <| elided := true |> else
-  match opt "f" o, opt "t" o with
-  | None, None => err "one of -f option or -t option at least required" s2
-  | _, ot =>
-    let s3 := if par s2 then (begin_phrasing (flag "ns" o) s2) <| ws := false |> else s2 in
-    let '(t, s4) :=
-      match ot with
-      | Some tg => let '(tag, s') := inlines_text tg s3 in
-                   if str_eqb tag (R "escape") then let '(x, s'') := args_text (po_args o) s' in (escape_fn s'' x, s'')
-                   else render_args (po_args o) (err "undefined filter tag" s')
-      | None => args_text (po_args o) s3
-      end in
-    w t s4
-  end.
-
 Definition lox_entry (class : string) (e : lox) (id : str) (s : st) : st :=
   let e1 := mkLox (lx_count e) (lx_macro e) (lx_nonum e) (lx_num e) (gen_ref s (lx_prefix e) id) (lx_prefix e) (lx_title e) (lx_id e) in
   let s1 := if String.eqb class "lof" then s <| lox_lof ::= fun l => l ++ [e1] |>
